@@ -4,6 +4,8 @@
 wt="$1"; id="$2"; filter="$3"; extra="${4:-}"
 out="$wt/out/$id"; log="$out/confirm.log"
 cd "$wt" || exit 2
+# rustc 1.89 incremental compilation ICEs when patches are toggled back and forth
+export CARGO_INCREMENTAL=0; rm -rf "$wt/target/debug/incremental"
 git checkout -q -- . ; git clean -qfd -e out -e target
 NX="cargo nextest run --workspace --no-fail-fast --tool-config-file pb:/w/lib/nextest.toml --profile pb --test-threads 8 --offline $extra"
 {
